@@ -9,4 +9,5 @@ open OrxPar
 #print axioms C14_no_spurious_panic
 #print axioms C14_pred_no_sound
 #print axioms C14_pred_yes_full
+#print axioms C14_pred_yes_short
 #print axioms C14_swallowing_join_returns_a_value
